@@ -1,2 +1,54 @@
-/-! placeholder driver (property C12 not built yet) -/
-def main : IO Unit := IO.println "bad-op"
+import LlgoVerif.Util
+import LlgoVerif.Model.Init
+/-! Line-protocol driver for C12. One request per line, one answer per line.
+
+    `host <calls> <pkg> <pkg> …`          trace of the top-level initialiser calls `calls` (c-archive host, or any test)
+    `exe <main> <rt|-> <abi 0|1> <pkg> …` trace of the generated entry function
+      calls : comma separated package numbers (`-` = none)
+      pkg   : `<imports>` | `<imports>/c/<origImports>` (chained patched) | `<imports>/n/<origImports>` (skip-init patched);
+              package number = position; import lists comma separated, `-` = empty
+    answer: `ok ` + events: `b<p>` body of p's init, `o<p>` body of p's init$hasPatch, `py`, `abi`, `main`;
+            `bad-topo` if some import is not smaller than its importer (the model is only meant for topological numberings) -/
+open LlgoVerif LlgoVerif.Util LlgoVerif.Init
+
+def natList (s : String) : Option (List Nat) :=
+  if s = "-" then some [] else (s.splitOn ",").mapM String.toNat?
+
+def parsePkg (s : String) : Option Pkg :=
+  match s.splitOn "/" with
+  | [i] => do pure { imports := (← natList i) }
+  | [i, "c", o] => do pure { imports := (← natList i), kind := .chained (← natList o) }
+  | [i, "n", o] => do pure { imports := (← natList i), kind := .noOld (← natList o) }
+  | _ => none
+
+def showEv : Ev → String
+  | .body p false => "b" ++ toString p
+  | .body p true => "o" ++ toString p
+  | .pyInit => "py"
+  | .abiTypes => "abi"
+  | .mainMain => "main"
+
+def showTrace (t : List Ev) : String :=
+  if t.isEmpty then "ok ." else "ok " ++ " ".intercalate (t.map showEv)
+
+def handle (line : String) : String :=
+  match fields line with
+  | "host" :: calls :: pkgs =>
+    match natList calls, pkgs.mapM parsePkg with
+    | some cs, some ps =>
+      let P := ofList ps
+      if !topoUpTo P ps.length then "bad-topo"
+      else if cs.any (· ≥ ps.length) then "bad-op"
+      else showTrace (callInits P (ps.length + 1) cs {}).trace
+    | _, _ => "bad-op"
+  | "exe" :: main :: rt :: abi :: pkgs =>
+    match main.toNat?, (if rt = "-" then some none else rt.toNat?.map some), pkgs.mapM parsePkg with
+    | some m, some r, some ps =>
+      let P := ofList ps
+      if !topoUpTo P ps.length then "bad-topo"
+      else if m ≥ ps.length || (r.any (· ≥ ps.length)) then "bad-op"
+      else showTrace (runEntry P (ps.length + 1) { main := m, rt := r, abiInit := abi = "1" }).trace
+    | _, _, _ => "bad-op"
+  | _ => "bad-op"
+
+def main : IO Unit := lineLoop handle
